@@ -33,6 +33,7 @@ ASSUMPTIONS = [
     "reference feasibility uses the default tolerances 1e-5 / 1e-7 the algorithms hard-code",
     "items marked 'after': the same algorithm object has first served a complete simulation on another network with the same station ids",
     "extra blocks: three simultaneous sessions (every combination of kinds); two run() stages with the limit of the last-added constraint changed under the same name in between (reference uses the limit then in force)",
+    "direct block: the public helper max_feasible_rate asked with eps in {0.5, 0.05, 0.01, 1e-3, 1e-4, 1e-6, default} on every lattice of granted rates of N2/N5/N12",
     "uninterrupted charging off (the property's allocation rule is stated for lower bound 0)",
 ]
 CHUNK = 20
@@ -76,7 +77,74 @@ def space(tier, seed):
             if len(scn["sessions"]) == 2 or tier == "thorough":
                 items.append({"net": scn["net"], "sessions": scn["sessions"], "sched": {"kind": "unc"}, "period": 5, "after": REUSE[scn["net"]]})
                 items.append({"net": scn["net"], "sessions": scn["sessions"], "sched": {"kind": "greedy", "sort": "llf", "est": True, "unint": False, "inc": 1}, "period": 5, "after": REUSE[scn["net"]]})
+    # the public bisection helper asked directly, with every tolerance of a menu (the greedy algorithm itself passes one)
+    for netname in ("N2", "N5", "N12"):
+        items.append({"mfr": True, "net": netname, "tier": tier})
     return items + extra
+
+
+MFR_EPS = [0.5, 0.05, 0.01, 1e-3, 1e-4, 1e-6, None]  # None: the documented default of the helper
+
+
+def run_mfr(item):
+    """SortedSchedulingAlgo.max_feasible_rate(station, ub, schedule, info, eps) on every lattice of already granted rates:
+    the bound itself if it is feasible, else within eps below the closed-form maximum - for EVERY eps asked for"""
+    import itertools
+    import warnings
+
+    from acnportal.acnsim import Simulator
+    from acnportal.acnsim.events import EventQueue
+    from acnportal.acnsim.interface import Interface
+    from acnportal.algorithms import BaseAlgorithm
+
+    worker_init()
+    viol, n, nt, outs = [], 0, set(), set()
+    ref = Ref(item["net"])
+    with warnings.catch_warnings():
+        warnings.simplefilter("ignore")
+        net = S.build_network(item["net"], cls=S.MonNet)
+        iface = Interface(Simulator(net, BaseAlgorithm(), EventQueue(), S.START, verbose=False))
+        info = iface.infrastructure_info()
+    ids = list(info.station_ids)
+    lattice = (0.0, 6.0, 12.5, 20.0, 32.0) if item.get("tier") == "thorough" else (0.0, 8.0, 20.0, 32.0)
+    for i, st in enumerate(ids):
+        others = [s_ for s_ in ids if s_ != st]
+        for grants in itertools.product(lattice, repeat=len(others)):
+            x = dict(zip(others, grants))
+            x[st] = 0.0
+            ok0, m0 = ref.feasible(x)
+            if not ok0 or m0 < 1e-6:
+                continue  # the helper is specified for feasible starting schedules
+            for ub in (ref.max_rate(st) if ref.max_rate(st) < 1e9 else 64.0, 17.3):
+                trial = dict(x)
+                trial[st] = ub
+                okub, mub = ref.feasible(trial)
+                if mub < 1e-6:
+                    continue
+                xm = ub if okub else ref.xmax(st, x)
+                for eps in MFR_EPS:
+                    sched = np.array([x[s_] for s_ in ids], dtype=float)
+                    before = sched.copy()
+                    kw = {} if eps is None else {"eps": eps}
+                    eff = 1e-4 if eps is None else eps
+                    n += 1
+                    got = float(_orig_mfr(i, ub, sched, info, **kw))
+                    outs.add((item["net"], okub, eps))
+                    if not okub:
+                        nt.add((item["net"], st, grants, ub))
+                    if okub:
+                        bad = abs(got - ub) > 1e-9
+                    else:
+                        bad = not (xm - eff - 1e-9 <= got <= xm + 1e-9)
+                    if bad:
+                        viol.append(("max_feasible_rate:eps=%s" % eps, "%s: max_feasible_rate(%s, ub=%s, granted %s, eps=%s) = %.9g, the maximum feasible rate is %.9g" % (item["net"], st, ub, x, eps, got, xm), got, xm))
+                        break
+                    if not np.array_equal(sched, before):
+                        viol.append(("max_feasible_rate:schedule-mutated", "max_feasible_rate changed the caller's schedule vector", sched.tolist(), before.tolist()))
+                        break
+            if len(viol) > 5:
+                return viol, n, nt, outs
+    return viol, n, nt, outs
 
 
 # ---------------------------------------------------------------------------
@@ -295,6 +363,18 @@ def execute(scn):
 
 def run(scn):
     acc = Acc()
+    if scn.get("mfr"):
+        viol, n, nt, outs = run_mfr(scn)
+        acc.evals += n
+        acc.transitions += n
+        for o in outs:
+            acc.outcome(o)
+        for x in nt:
+            acc.nt(x)
+        for sig, what, o, e in viol:
+            acc.violation(sig, what, scn, o, e)
+        acc.sample({"direct max_feasible_rate calls on": scn["net"], "eps": MFR_EPS}, cap=1)
+        return acc
     tr, viol, res, stats = execute(scn)
     acc.evals += 1
     acc.transitions += len(tr.calls)
@@ -317,5 +397,7 @@ def finalize(total, tier, seed):
 
 
 def replay(scn):
+    if scn.get("mfr"):
+        return [{"signature": s, "what": w, "observed": o, "expected": e} for s, w, o, e in run_mfr(scn)[0]]
     _, viol, _, _ = execute(scn)
     return [{"signature": s, "what": w, "observed": o, "expected": e} for s, w, o, e in viol]
